@@ -20,7 +20,7 @@ from ..framework import Judgement, Property, err_kind
 MI = "antismash/detection/nrps_pks_domains/module_identification.py"
 DI = "antismash/detection/nrps_pks_domains/domain_identification.py"
 
-FLAGS = ("complete", "starter_module", "termination", "iterative", "trans_at", "pks", "nrps")
+FLAGS = ("complete", "starter_module", "termination", "iterative", "trans_at", "pks", "nrps", "start", "stop")
 STATE = ("comps", "first", "starter", "loader", "mods", "carrier", "end", "others", "unamb", "sil",
          "terminated", "coa") + FLAGS
 
@@ -81,6 +81,7 @@ def mod_json(m: Any) -> Dict[str, Any]:
         "termination": bool(m.is_termination_module()), "iterative": bool(m.is_iterative()),
         "trans_at": bool(m.is_trans_at()), "pks": bool(m.is_pks()), "nrps": bool(m.is_nrps()),
         "terminated": bool(m.is_terminated()), "coa": bool(m.is_coa_ligase()),
+        "start": (int(m.start) if m._components else None), "stop": (int(m.end) if m._components else None),
         "reload": reload_status(m),
     }
 
@@ -105,7 +106,7 @@ class C14(Property):
         "Module.__init__", "Module.to_json", "Module.from_json", "Module.is_pks", "Module.is_nrps",
         "Module.is_coa_ligase", "Module.is_trans_at", "Module.is_iterative", "Module.ensure_suitable",
         "Module.add_component", "Module.is_complete", "Module.is_terminated", "Module.is_termination_module",
-        "Module.is_starter_module", "Module.is_empty", "Module.__iter__", "Module.components",
+        "Module.is_starter_module", "Module.is_empty", "Module.__iter__", "Module.components", "Module.start", "Module.end",
         "classify", "build_modules_for_cds", "CDSModuleInfo", "combine_modules")] + [
         (DI, "generate_domains"),
         ("antismash/common/hmmscan_refinement.py", "HMMResult.detailed_names"),
@@ -148,7 +149,7 @@ class C14(Property):
         "`sorted(..., key=query_start)` is a stable sort (modelled by Lean's stable List.mergeSort)",
         "iteration order of the set DOUBLE_TRANSPORTER_CASES (irrelevant while all cases have one length: "
         "table fact `dt_cases_len` is re-proved on every run)",
-        "get_monomer and Module.start/end are outside the statement; of the aSModule feature the location, the generic "
+        "get_monomer is outside the statement; of the aSModule feature the location, the generic "
         "Feature qualifiers and monomer pairings are not modelled (kind `feature` compares them on the implementation only)",
         "of generate_domain_features the names, loci and the dict keyed by the hit are modelled (domainFeatures / tableOf); "
         "the DNA locations, translations and the DOMAIN_TYPE_MAPPING renaming of `.domain` are exercised only",
